@@ -179,6 +179,23 @@ def check(run, F, tier):
                 hname, [(w[0], conn.short(w[1])) for w in bad[1]], want), conn.path_summary(bad[0]))
         else:
             r4.ok(hname, {"paths": len(lst), "assigns": want})
+    # latched: process_recv_packet assigns protocol_version once, before the adopted handler, and on no other path - a later
+    # write (a roll-back after a refused CONNECT, a re-detection on a fixed-version connection) un-latches the version
+    relatch = None
+    for p in res["paths"]:
+        if p.kind != "return":
+            continue
+        stubs = [i for i, e in enumerate(p.effects) if e[0] == "stub"]
+        start = stubs[0] if (stubs and conn.feasible(p, env)) else 0
+        late = [e for e in p.effects[start:] if e[0] == "write" and e[1] == ("self",) and conn.field_of_write(e) == "protocol_version"]
+        if late:
+            relatch = (p, late[0])
+    if relatch:
+        r4.violation("latched", "process_recv_packet writes protocol_version = %s %s: the version adopted from the first CONNECT is not kept" % (
+            conn.short(relatch[1][3]), "after the CONNECT handler ran" if any(e[0] == "stub" for e in relatch[0].effects) else "on a path that adopts nothing"),
+            conn.path_summary(relatch[0]))
+    else:
+        r4.ok("latched", "protocol_version written only by the adoption assignment")
     extra = [h for h in adopt if h not in ("process_recv_v3_1_1_connect", "process_recv_v5_0_connect")]
     if extra:
         r4.violation("extra-adoption", "undetermined server reaches handlers other than CONNECT: %s" % extra)
